@@ -137,6 +137,44 @@ def annotateSystem (sys : Sys) (seq : List Nat) : Except Err Sys :=
     | .error e => .error e
     | .ok st => .ok st.sys
 
+/-! ### the processor object and histories of applications
+
+`AnnotateResidues` is an object configured with `sequence`; `run_system` and `run_molecule` only
+read `self.sequence` (the reconciled/repeated sequence lives in a local variable).  The state of
+the processor is modelled explicitly so that "a second application behaves like a fresh
+processor" is a statement about the model (`processor_stateless`). -/
+
+structure Proc where
+  sequence : List Nat
+  deriving Repr, DecidableEq
+
+/-- one application of a processor: `run_system` on a system, or `run_molecule` on one molecule
+(with the value of the selector on it) -/
+inductive Op where
+  | system (sys : Sys)
+  | molecule (sel : Bool) (m : Mol)
+
+inductive Res where
+  | system (r : Except Err Sys)
+  | molecule (r : Except Err Mol)
+
+/-- `AnnotateResidues.run_molecule` -/
+def runMolecule (seq : List Nat) (sel : Bool) (m : Mol) : Except Err Mol :=
+  if sel then annotateMol m seq else .ok m
+
+/-- what a freshly constructed processor with configuration `seq` does -/
+def freshApply (seq : List Nat) : Op → Res
+  | .system sys => .system (annotateSystem sys seq)
+  | .molecule sel m => .molecule (runMolecule seq sel m)
+
+/-- one application: new processor state and result.  The code assigns nothing to `self`. -/
+def procStep (p : Proc) (op : Op) : Proc × Res := (p, freshApply p.sequence op)
+
+/-- the same processor object applied to a list of systems / molecules in a row -/
+def runHistory (p : Proc) : List Op → List Res
+  | [] => []
+  | op :: ops => (procStep p op).2 :: runHistory (procStep p op).1 ops
+
 /-- The unrepaired loop (`zip(system.molecules, molecule_lengths)`), kept to state finding F-C17-1. -/
 def annotateSystemOld (sys : Sys) (seq : List Nat) : Except Err Sys :=
   let lengths := selLengths sys
